@@ -64,3 +64,20 @@ prop("C03", "c03",
            "matching semantics; bounded exploration.",
      note="Trusted: glob/regexp libraries, net/http request parsing, sprig toJson/b64enc used for the echo channel.",
      technique="property-based testing: reference model of matcher composition and capture decoding, observed end-to-end")
+
+prop("C06", "c06",
+     "Histories of add/update/delete operations (1-8 steps quick, up to 20 thorough) over 3 sources through the real "
+     "processor+repository; rule sets are drawn from a per-case pool of 3-9 path expressions (shared between sources, with "
+     "an occasional invalid one such as /a/**/b), 1-4 rules with 1-2 routes, method conditions and backtracking flags; "
+     "updates are mutations of the current version (rule changed / unchanged / reordered / added / removed / replaced). "
+     "Oracle (the relation the statement defines): after every step the probe answers (all paths derivable from the pool x "
+     "GET/POST) equal those of a fresh repository into which the model's current versions are loaded once; a change is "
+     "expected to apply iff that fresh load succeeds; a rejected change must return an error and leave all probe answers "
+     "unchanged. Non-trivial: the history contains an update or delete; distinct by the canonical history string.",
+     [dict(run="^TestHistoryEqualsFreshLoad$", quick=1500, thorough=8000, shards_thorough=12)],
+     ["rules sharing an expression carry the same backtracking flag (undefined otherwise)",
+      "add only for absent sources, update/delete only for existing ones (what providers do)"],
+     level="Stateful randomised search over rule-set histories with a differential oracle against a freshly loaded "
+           "instance of the same code after every step; bounded exploration.",
+     note="Trusted: the fresh load itself is judged by C02/C03; probe set is finite (derived from the pool).",
+     technique="stateful property-based testing: history vs fresh-load differential after every step")
